@@ -95,7 +95,7 @@ CLAIMED = {
     "C15": (
         "model-based operation histories (Hypothesis op-lists: submit / advance / load / evict / schedule+apply) against the real ClockworkScheduler, judged by a shadow ledger and a request history",
         "Stateful exploration: every batch returned in every invocation of generated histories is checked for one model, full size, loaded model, capacity per shadow ledger, on-time completion, at-most-once placement and cancel-iff-hopeless. Exploration of short histories.",
-        "Start-up loading performed by the harness through scheduler.start(); scheduler_run_load off.",
+        "Start-up loading performed by the harness through scheduler.start(); a quarter of the histories run with scheduler_run_load.",
         "DESIGN.md 3 C15",
     ),
     "C16": (
